@@ -51,6 +51,21 @@ def r5_callers(ctx, repo):
                 continue
             C = "%s%s" % (cls.name + "." if cls else mod.name + ".", fn.name)
             n_sites += len(sites)
+            # the RuntimeError that ends the five attempts has to reach the caller: a handler around the call that catches it
+            # (or everything) and does not re-raise on every path turns a design that was never evaluated into a result
+            for tr in [t for t in ast.walk(fn) if isinstance(t, ast.Try)]:
+                if not any(c in sites for st_ in tr.body for c in ast.walk(st_) if isinstance(c, ast.Call)):
+                    continue
+                for h in tr.handlers:
+                    names = [n.split(".")[-1] if n else None for n in Enumerator.handler_names(h)]
+                    if not (h.type is None or any(n in ("RuntimeError", "Exception", "BaseException") for n in names)):
+                        continue
+                    hp = body_paths(h.body, fn.args) if h.body else []
+                    swallow = [p_ for p_ in hp if p_.outcome != "raise"]
+                    if swallow:
+                        ctx.violated("R5", C, where(mod, h), "%s catches %s around %s and goes on (path [%s]): the RuntimeError raised after five consecutive failures does not reach the caller, "
+                                     "and the design, never evaluated successfully, stays in the batch as if it had a result"
+                                     % (C, "everything" if h.type is None else "/".join(n for n in names if n), text(sites[0]), swallow[0].describe(4)), key="swallow:" + C)
             bad = None
             npaths = 0
             try:
